@@ -9,13 +9,13 @@ natively, so each feasible (k1, k2[, k3]) is one solver path through the real co
 import random
 from typing import Optional
 
-from vk.prelude import h, tick, tiered, concrete_arrays, notrace, sym_true
+from vk.prelude import THOROUGH, h, tick, tiered, concrete_arrays, notrace, sym_true, concretize
 from vk.fixtures import Ctl, restore, cleanup, dump_reader, base_schema
 from whoosh import writing, query
 from whoosh.filedb.filestore import RamStorage
 
 concrete_arrays()
-STRIDE = tiered(8, 1)
+STRIDE = tiered(4, 1)
 
 
 def _build_pre():
@@ -40,22 +40,25 @@ PRE, PRE_GEN = _build_pre()
 
 
 def script(ix, compound):
-    """append; default (small-segment) merge; delete-only; optimize; CLEAR"""
+    """thorough: append; default (small-segment) merge; delete-only; optimize; CLEAR
+    quick: append; delete-only; optimize (which merges everything)"""
     w = ix.writer(compound=compound)
     w.add_document(k=u"e", t=u"echo alfa", n=5)
     w.commit(merge=False)
-    w = ix.writer(compound=compound)
-    w.add_document(k=u"f", t=u"foxtrot bravo", n=6)
-    w.commit()
+    if THOROUGH:
+        w = ix.writer(compound=compound)
+        w.add_document(k=u"f", t=u"foxtrot bravo", n=6)
+        w.commit()
     w = ix.writer(compound=compound)
     w.delete_by_term("k", u"a")
     w.commit(merge=False)
     w = ix.writer(compound=compound)
     w.add_document(k=u"g", t=u"golf", n=7)
     w.commit(optimize=True)
-    w = ix.writer(compound=compound)
-    w.add_document(k=u"h", t=u"hotel", n=8)
-    w.commit(mergetype=writing.CLEAR)
+    if THOROUGH:
+        w = ix.writer(compound=compound)
+        w.add_document(k=u"h", t=u"hotel", n=8)
+        w.commit(mergetype=writing.CLEAR)
 
 
 def probe(s):
@@ -124,6 +127,11 @@ def _warm(kind, compound, mmap):
         finally:
             cleanup(tmp)
     return _CACHE[key]
+
+
+def nops(kind, compound, mmap):
+    with notrace():
+        return _warm(kind, compound, mmap)[0]
 
 
 def run_hold(kind, compound, mmap, k1, k2, k3, warm=None):
@@ -228,9 +236,9 @@ def _mk(kind, compound, mmap, with_refresh):
     name = "c03_hold_%s_%s_%s%s" % (kind, "cmp" if compound else "loose", "mmap" if mmap else "nommap", "_refresh" if with_refresh else "")
 
     if with_refresh:
-        @h(bounds="5-commit writer script (append, small-merge, delete-only, optimize, CLEAR) on %s compound=%s mmap=%s; searcher opened before op k1, "
+        @h(bounds="writer script (quick: append, delete-only, optimize; thorough: append, small-merge, delete-only, optimize, CLEAR) on %s compound=%s mmap=%s; searcher opened before op k1, "
                   "probed and then refreshed+probed before op k3>=k1; every pair k1<=k3 over all storage operations of the script with (k3-k1) %% %d == 0 "
-                  "(quick 8, thorough 1)" % (kind, compound, mmap, STRIDE),
+                  "(quick 4, thorough 1)" % (kind, compound, mmap, STRIDE),
            funcs=["whoosh.index.FileIndex.reader", "whoosh.index.FileIndex._reader", "whoosh.searching.Searcher.refresh", "whoosh.searching.Searcher.up_to_date",
                   "whoosh.reading.SegmentReader", "whoosh.writing.SegmentWriter.commit", "whoosh.index.clean_files"],
            examples=[dict(k1=3, k3=43), dict(k1=1, k3=1)],
@@ -246,9 +254,9 @@ def _mk(kind, compound, mmap, with_refresh):
             with notrace():
                 return run_hold(kind, compound, mmap, k1, k3, k3)
     else:
-        @h(bounds="5-commit writer script (append, small-merge, delete-only, optimize, CLEAR) on %s compound=%s mmap=%s; searcher opened before op k1 and "
+        @h(bounds="writer script (quick: append, delete-only, optimize; thorough: append, small-merge, delete-only, optimize, CLEAR) on %s compound=%s mmap=%s; searcher opened before op k1 and "
                   "probed (all read APIs, up_to_date) before op k2, every pair k1<=k2 over all storage operations of the script with (k2-k1) %% %d == 0 "
-                  "(quick 8, thorough 1)" % (kind, compound, mmap, STRIDE),
+                  "(quick 4, thorough 1)" % (kind, compound, mmap, STRIDE),
            funcs=["whoosh.index.FileIndex.reader", "whoosh.index.FileIndex._reader", "whoosh.searching.Searcher.up_to_date",
                   "whoosh.reading.SegmentReader", "whoosh.writing.SegmentWriter.commit", "whoosh.index.clean_files"],
            examples=[dict(k1=3, k2=40), dict(k1=1, k2=1)],
@@ -279,10 +287,11 @@ for _k, _c, _m in CONFIGS:
    examples=[], timeout=dict(quick=120, thorough=120))
 def c03_kf_lazy_columns(k: int) -> Optional[str]:
     """
-    pre: k == 104
+    pre: k == 1
     post: _ is None
     """
     with notrace():
-        r = run_hold("ram", False, False, 19, 104, None, warm=False)
+        n = _warm("ram", False, False)[0]
+        r = run_hold("ram", False, False, 19, n, None, warm=False)
     tick(True)
     return r
